@@ -5,7 +5,7 @@
 
 use crate::common::*;
 use crate::fwsim::{ActionRec, Ev};
-use crate::mach::cdist;
+use crate::mach::{cdist, ALL_EVENTS};
 use crate::sup::{catch_sut, Engine, EngineInfo, Stats, Tier, Violation};
 use enum_map::enum_map;
 use maybenot::action::Action;
@@ -43,6 +43,11 @@ struct Vector {
     /// target: 0..k-1 = ordinary state i+1 of the probe machine, END, SIGNAL
     targets: Vec<usize>,
     probs: Vec<f32>,
+    /// index into ALL_EVENTS of the event the transitions are declared for
+    event: usize,
+    /// bit set of further events that get their own probability-1 transition
+    /// (to END) in the lookup sub-check
+    declared: u16,
 }
 
 const GRID: u64 = 1 << 23;
@@ -189,7 +194,14 @@ fn gen_vector(g: &mut Gen) -> Vector {
     };
     let mut targets = targets;
     targets.truncate(probs.len());
-    Vector { targets, probs }
+    let event = g.usize(13);
+    let declared = (g.u64() & 0x1fff) as u16;
+    Vector {
+        targets,
+        probs,
+        event,
+        declared,
+    }
 }
 
 fn vec_json(v: &Vector) -> Value {
@@ -197,6 +209,9 @@ fn vec_json(v: &Vector) -> Value {
         "targets": v.targets,
         "prob_bits": v.probs.iter().map(|p| p.to_bits()).collect::<Vec<u32>>(),
         "probs_readable": v.probs,
+        "event": v.event,
+        "event_readable": format!("{:?}", ALL_EVENTS[v.event % 13]),
+        "declared_events_bits": v.declared,
     })
 }
 fn vec_from(j: &Value) -> Option<Vector> {
@@ -211,17 +226,21 @@ fn vec_from(j: &Value) -> Option<Vector> {
             .iter()
             .map(|x| x.as_u64().map(|y| f32::from_bits(y as u32)))
             .collect::<Option<Vec<_>>>()?,
+        event: j["event"].as_u64().unwrap_or(0) as usize % 13,
+        declared: j["declared_events_bits"].as_u64().unwrap_or(0) as u16,
     })
 }
 
-fn probe_state(v: &Vector) -> Option<State> {
+fn probe_state(v: &Vector, event: Event) -> Option<State> {
     let list: Vec<Trans> = v
         .targets
         .iter()
         .zip(v.probs.iter())
         .map(|(t, p)| Trans(*t, *p))
         .collect();
-    let s = State::new(enum_map! { Event::NormalRecv => list.clone(), _ => vec![] });
+    let mut m: enum_map::EnumMap<Event, Vec<Trans>> = enum_map! { _ => vec![] };
+    m[event] = list;
+    let s = State::new(m);
     let n = v
         .targets
         .iter()
@@ -242,7 +261,8 @@ fn word_for(j: u64, junk: u64) -> u64 {
 impl C06 {
     fn run(&self, v: &Vector, stats: &mut Stats, full: bool) -> Vec<Violation> {
         let mut out = vec![];
-        let Some(state) = probe_state(v) else {
+        let ev = ALL_EVENTS[v.event % 13];
+        let Some(state) = probe_state(v, ev) else {
             stats.inc("rejected_vectors");
             return out;
         };
@@ -267,7 +287,7 @@ impl C06 {
             let r = catch_sut(|| {
                 for j in 0..GRID {
                     let mut rng = OneWord(word_for(j, junk.wrapping_mul(j | 1)));
-                    match state.sample_state(Event::NormalRecv, &mut rng) {
+                    match state.sample_state(ev, &mut rng) {
                         None => counts[k] += 1,
                         Some(t) => match v.targets.iter().position(|x| *x == t) {
                             Some(i) => counts[i] += 1,
@@ -275,9 +295,21 @@ impl C06 {
                         },
                     }
                 }
-                // an event without transitions never moves the machine
-                let mut rng = OneWord(0);
-                state.sample_state(Event::NormalSent, &mut rng)
+                // an event without transitions never moves the machine: every
+                // other event, lowest / middle / highest draw
+                let mut moved = None;
+                for other in ALL_EVENTS {
+                    if other == ev {
+                        continue;
+                    }
+                    for w in [0u64, 1 << 63, u64::MAX] {
+                        let mut rng = OneWord(w);
+                        if let Some(t) = state.sample_state(other, &mut rng) {
+                            moved = Some((other, t));
+                        }
+                    }
+                }
+                moved
             });
             stats.add("draws_injected", GRID);
             match r {
@@ -290,12 +322,13 @@ impl C06 {
                     return out;
                 }
                 Ok(moved) => {
-                    if moved.is_some() {
+                    if let Some((other, t)) = moved {
                         out.push(Violation::new(
                             "moved-without-transition",
-                            "an event for which the state declares no transitions returned a target".into(),
+                            format!("the state declares transitions for {ev:?} only, but {other:?} returned target {t}"),
                             Some(vec_json(v)),
                         ));
+                        return out;
                     }
                 }
             }
@@ -321,8 +354,62 @@ impl C06 {
                 stats.probe("probability_one_always_taken");
             }
         }
+        // ---- event lookup: a state that declares a probability-1 transition to
+        // its own target for each event of a set D must return exactly that target
+        // for the events in D and nothing for the others, through State::new,
+        // sample_state and get_transitions
+        {
+            let mut m: enum_map::EnumMap<Event, Vec<Trans>> = enum_map! { _ => vec![] };
+            for (i, e) in ALL_EVENTS.iter().enumerate() {
+                if v.declared >> i & 1 == 1 {
+                    m[*e] = vec![Trans(i, 1.0)];
+                }
+            }
+            let want = m.clone();
+            let r = catch_sut(|| {
+                let s = State::new(m);
+                let mut bad = None;
+                for (i, e) in ALL_EVENTS.iter().enumerate() {
+                    for w in [0u64, u64::MAX] {
+                        let got = s.sample_state(*e, &mut OneWord(w));
+                        let exp = (v.declared >> i & 1 == 1).then_some(i);
+                        if got != exp {
+                            bad = Some(format!("{e:?}: sample_state returned {got:?}, declared {exp:?}"));
+                        }
+                    }
+                }
+                let back = s.get_transitions();
+                for e in ALL_EVENTS {
+                    let a: Vec<(usize, u32)> = back[e].iter().map(|t| (t.0, t.1.to_bits())).collect();
+                    let b: Vec<(usize, u32)> = want[e].iter().map(|t| (t.0, t.1.to_bits())).collect();
+                    if a != b {
+                        bad = Some(format!("{e:?}: get_transitions returns {:?}, State::new was given {:?}", back[e], want[e]));
+                    }
+                }
+                bad
+            });
+            stats.probe("event_lookup_subcheck");
+            match r {
+                Err(p) => {
+                    out.push(Violation::new("panic-in-sample_state", p, Some(vec_json(v))));
+                    return out;
+                }
+                Ok(Some(d)) => {
+                    out.push(Violation::new(
+                        "event-lookup",
+                        format!("state declaring one transition per event of the set {:#015b}: {d}", v.declared),
+                        Some(vec_json(v)),
+                    ));
+                    return out;
+                }
+                Ok(None) => {}
+            }
+        }
         // ---- stratified draws through the whole framework
         let n_states = state_count(v);
+        let Some(state) = probe_state(v, Event::NormalRecv) else {
+            return out;
+        };
         let mut states = vec![state.clone()];
         for i in 1..n_states {
             let mut s = State::new(enum_map! { _ => vec![] });
